@@ -45,6 +45,7 @@ class Worker:
         self.errf = tempfile.TemporaryFile(mode="w+b")
         env = dict(os.environ)
         env.pop("MANIFOLD_OBJ_HEX_FLOAT", None)
+        env["MALLOC_ARENA_MAX"] = "1"  # one simulated thread runs at a time; avoids per-thread arena churn
         self.proc = subprocess.Popen([binpath(self.flavour), "worker"], stdin=subprocess.PIPE, stdout=subprocess.PIPE,
                                      stderr=self.errf, env=env, bufsize=0)
         self.buf = b""
